@@ -67,6 +67,8 @@ def _inline_call(stmt, call, helper, caller_names, counter):
     if a.vararg or a.kwarg or a.kwonlyargs or a.posonlyargs:
         return None
     params = [x.arg for x in a.args]
+    if isinstance(call.func, ast.Attribute) and params and params[0] == 'self':
+        params = params[1:]                       # a method of the same object: `self` stays `self`
     if len(call.args) > len(params) or any(isinstance(x, ast.Starred) for x in call.args):
         return None
     bound = dict(zip(params, call.args))
@@ -81,7 +83,11 @@ def _inline_call(stmt, call, helper, caller_names, counter):
                 return None
             bound[p] = defaults[p]
     body = [st for st in helper.body if not (isinstance(st, ast.Expr) and isinstance(st.value, ast.Constant))]
-    if not _tail_returns_only(body):
+    procedure = not any(isinstance(n, (ast.Return, ast.Yield, ast.YieldFrom)) for st in body for n in ast.walk(st))
+    if procedure:
+        if not (isinstance(stmt, ast.Expr) and stmt.value is call):
+            return None
+    elif not _tail_returns_only(body):
         return None
     body = copy.deepcopy(body)
     ret = '__ret_%s_%d' % (helper.name.strip('_'), counter)
@@ -109,6 +115,8 @@ def _inline_call(stmt, call, helper, caller_names, counter):
             if n is call:
                 return ast.Name(id=ret, ctx=ast.Load())
             return s.generic_visit(n)
+    if procedure:
+        return pre + body
     new_stmt = _Sub().visit(stmt)
     return pre + body + [new_stmt]
 
@@ -128,6 +136,33 @@ def _loopify(body):
             for c in reversed(g.ifs):
                 inner = [ast.If(test=c, body=inner, orelse=[])]
             out.append(ast.Assign(targets=[ast.Name(id=lst, ctx=ast.Store())], value=ast.List(elts=[], ctx=ast.Load()), lineno=getattr(st, "lineno", 0)))
+            out.append(ast.For(target=g.target, iter=g.iter, body=inner, orelse=[], lineno=getattr(st, "lineno", 0)))
+            changed = True
+            continue
+        if isinstance(st, ast.Assign) and len(st.targets) == 1 and isinstance(st.targets[0], ast.Name) \
+                and isinstance(st.value, ast.DictComp) and len(st.value.generators) == 1 and not st.value.generators[0].is_async:
+            # d = {K: V for x in IT if C}  ->  d = {}; for x in IT: if C: d[K] = V
+            g = st.value.generators[0]
+            dn = st.targets[0].id
+            inner = [ast.Assign(targets=[ast.Subscript(value=ast.Name(id=dn, ctx=ast.Load()), slice=st.value.key, ctx=ast.Store())],
+                                value=st.value.value, lineno=getattr(st, "lineno", 0))]
+            for c in reversed(g.ifs):
+                inner = [ast.If(test=c, body=inner, orelse=[])]
+            out.append(ast.Assign(targets=[ast.Name(id=dn, ctx=ast.Store())], value=ast.Dict(keys=[], values=[]), lineno=getattr(st, "lineno", 0)))
+            out.append(ast.For(target=g.target, iter=g.iter, body=inner, orelse=[], lineno=getattr(st, "lineno", 0)))
+            changed = True
+            continue
+        if isinstance(st, ast.Expr) and isinstance(st.value, ast.Call) and isinstance(st.value.func, ast.Attribute) \
+                and st.value.func.attr == 'extend' and isinstance(st.value.func.value, ast.Name) and len(st.value.args) == 1 \
+                and isinstance(st.value.args[0], (ast.ListComp, ast.GeneratorExp)) and len(st.value.args[0].generators) == 1:
+            # lst.extend(ELT for x in IT if C)  ->  for x in IT: if C: lst.append(ELT)
+            comp = st.value.args[0]
+            g = comp.generators[0]
+            lst = st.value.func.value.id
+            inner = [ast.Expr(value=ast.Call(func=ast.Attribute(value=ast.Name(id=lst, ctx=ast.Load()), attr='append', ctx=ast.Load()),
+                                             args=[comp.elt], keywords=[]))]
+            for c in reversed(g.ifs):
+                inner = [ast.If(test=c, body=inner, orelse=[])]
             out.append(ast.For(target=g.target, iter=g.iter, body=inner, orelse=[], lineno=getattr(st, "lineno", 0)))
             changed = True
             continue
@@ -157,8 +192,13 @@ def _inline_in(body, helpers, caller_names, state):
                     changed = True
         done = False
         if isinstance(st, (ast.Expr, ast.Assign, ast.Return, ast.AugAssign)):
-            calls = [n for n in ast.walk(st) if isinstance(n, ast.Call) and isinstance(n.func, ast.Name) and n.func.id in helpers
-                     and state['only'](n.func.id)]
+            def hkey(n):
+                if isinstance(n.func, ast.Name):
+                    return n.func.id
+                if isinstance(n.func, ast.Attribute) and isinstance(n.func.value, ast.Name) and n.func.value.id == 'self':
+                    return 'self.' + n.func.attr
+                return None
+            calls = [n for n in ast.walk(st) if isinstance(n, ast.Call) and hkey(n) in helpers and state['only'](hkey(n))]
             # a call inside a lambda / comprehension of the statement cannot be hoisted
             inner = set()
             for n in ast.walk(st):
@@ -172,7 +212,7 @@ def _inline_in(body, helpers, caller_names, state):
                 idx = [i for i, n in enumerate(ast.walk(st)) if n is calls[0]][0]
                 st2 = copy.deepcopy(st)
                 call2 = list(ast.walk(st2))[idx]
-                rep = _inline_call(st2, call2, helpers[calls[0].func.id], caller_names, state['n'])
+                rep = _inline_call(st2, call2, helpers[hkey(calls[0])], caller_names, state['n'])
                 if rep is not None:
                     out.extend(rep)
                     changed = True
@@ -208,3 +248,87 @@ def normalise_function(module_tree, func_name, only=None):
     new_tree.body = [new_fn if n is fn else n for n in module_tree.body]
     ast.fix_missing_locations(new_tree)
     return ast.unparse(new_tree), done
+
+
+def normalised_repo(repo, relpath, func_name, only=None):
+    """a Repo in which `func_name` of module `relpath` is replaced by its normal form; None when nothing applies"""
+    from .model import Repo
+    m = repo.by_path[relpath]
+    src, done = normalise_function(m.tree, func_name, only=only or (lambda nm: False))
+    if src is None:
+        return None
+    srcs = dict(repo.sources)
+    srcs[relpath] = src
+    try:
+        return Repo(srcs)
+    except Exception:
+        return None
+
+
+def inline_private_methods(repo, relpath, qual):
+    """a Repo in which the private helper methods (`self._x(...)`, own class or a base class, procedures or tail
+    returns) called at statement level from method `qual` are inlined into it; None when nothing applies"""
+    from .model import Repo
+    f = repo.fn(relpath, qual, raw=True)
+    if f.cls is None:
+        return None
+    helpers = {}
+    for c in repo.calls_in(f):
+        if isinstance(c.func, ast.Attribute) and isinstance(c.func.value, ast.Name) and c.func.value.id == 'self' \
+                and c.func.attr.startswith('_') and not c.func.attr.startswith('__'):
+            m = repo.find_method(f.cls, c.func.attr)
+            if m is not None and m is not f:
+                helpers['self.' + c.func.attr] = m.node
+    if not helpers:
+        return None
+    tree = copy.deepcopy(f.module.tree)
+    target = None
+    for n in tree.body:
+        if isinstance(n, ast.ClassDef) and n.name == f.cls.name:
+            for b in n.body:
+                if isinstance(b, ast.FunctionDef) and b.name == f.name:
+                    target = b
+    if target is None:
+        return None
+    names = {n.id for n in ast.walk(target) if isinstance(n, ast.Name)} | {a.arg for a in target.args.args}
+    state = {'n': 0, 'only': lambda nm: True}
+    body, ch = _inline_in(target.body, helpers, names, state)
+    if not ch:
+        return None
+    target.body = body
+    ast.fix_missing_locations(tree)
+    srcs = dict(repo.sources)
+    srcs[relpath] = ast.unparse(tree)
+    try:
+        return Repo(srcs)
+    except Exception:
+        return None
+
+
+def loopified(repo, relpath, qual):
+    """FuncInfo of `qual` with its list/dict comprehension builders written as loops (in a rebuilt Repo); None when
+    there is nothing to rewrite"""
+    from .model import Repo
+    f = repo.fn(relpath, qual)
+    tree = copy.deepcopy(f.module.tree)
+    target = None
+    for n in tree.body:
+        if isinstance(n, ast.FunctionDef) and f.cls is None and n.name == f.name:
+            target = n
+        if isinstance(n, ast.ClassDef) and f.cls is not None and n.name == f.cls.name:
+            for b in n.body:
+                if isinstance(b, ast.FunctionDef) and b.name == f.name:
+                    target = b
+    if target is None:
+        return None
+    body, ch = _loopify(target.body)
+    if not ch:
+        return None
+    target.body = body
+    ast.fix_missing_locations(tree)
+    srcs = dict(repo.sources)
+    srcs[relpath] = ast.unparse(tree)
+    try:
+        return Repo(srcs).fn(relpath, qual)
+    except Exception:
+        return None
